@@ -897,7 +897,11 @@ func ToEntry(n Node) (e *Entry) {
 					}
 					ms.mergedSubmodule[srcToIncluded] = true
 					ms.mergedSubmodule[includedToParent] = true
-					e.merge(a.Module.Prefix, nil, ToEntry(a.Module))
+					se := ToEntry(a.Module)
+					e.merge(a.Module.Prefix, nil, se)
+					// The identities that the submodule defines are
+					// identities of this module as well.
+					e.Identities = append(e.Identities, se.Identities...)
 				case ms.ParseOptions.IgnoreSubmoduleCircularDependencies:
 					continue
 				default:
@@ -963,7 +967,9 @@ func ToEntry(n Node) (e *Entry) {
 			}
 		case "identity":
 			if i := fv.Interface().([]*Identity); i != nil {
-				e.Identities = i
+				// (appended: the identities of included submodules may
+				// be there already, see the include case)
+				e.Identities = append(e.Identities, i...)
 			}
 		case "uses":
 			for _, a := range fv.Interface().([]*Uses) {
